@@ -832,6 +832,23 @@ output_init(const struct arg *operand, const struct stat *sbuf)
         (void)strcpy(tmp + len, ".bz2");
       }
 
+      if (force) {
+        struct stat obuf;
+
+        /*
+           Removing the output file first must not destroy the input: refuse
+           if the output pathname leads to the very file we are reading (the
+           operand is a symbolic link to it, or another link to it).
+         */
+        if (0 == stat(tmp, &obuf) && obuf.st_dev == sbuf->st_dev
+            && obuf.st_ino == sbuf->st_ino) {
+          warn("skipping \"%s\": output file \"%s\" is the input file",
+               operand->val, tmp);
+          free(tmp);
+          break;
+        }
+      }
+
       if (force && -1 == unlink(tmp) && ENOENT != errno) {
         /*
            This doesn't warrant a warning in itself, just an explanation if
